@@ -87,10 +87,10 @@ CHECKS = {
             "TLA+ SigCache module (LRU state machine, key derivation) model-checked by TLC for transparency; TLC state-machine replay of operation sequences run on a cached and an uncached real Authority",
             "TLC exhausts the cache model over a small request universe and shows cached verdict = uncached verdict in every reachable state (negative control: the "
             "old key and a shared single/batch key space are refuted); a second model, MC_SigCacheConc, has overlapping callers (two critical sections per call) and refutes a "
-            "design that reserves the key before verifying. Seeded operation sequences (sign, verify, batch-verify, combine, overlapping calls for one signature through a gated scheme, replays with altered message/batch/view/signer labels, capacities "
+            "design that reserves the key before verifying. Seeded operation sequences (sign, verify, batch-verify, combine, overlapping calls for one signature through a gated scheme, list signatures re-cut at another entry boundary, replays with altered message/batch/view/signer labels, capacities "
             "1..4 and 50, three schemes) run on two real authorities; TLC replays the trace, compares verdicts at every step (Pass A), the uncached verdict with the "
             "Cert model, and the real LRU list with the model's after every operation (Pass B).",
-            "Signature objects are replayed with entry boundaries intact.", "DESIGN.md section 6, C11"),
+            "Re-cut list signatures move one entry boundary.", "DESIGN.md section 6, C11"),
     "C12": ("model_checking",
             "TLA+ Wire module defines the object grammar; TLC enumerates it (spec -> code), the harness round-trips every shape with real keys, TLC compares the projections and checks grammar coverage (line check)",
             "Every object shape of Wire!Objects x three schemes (4 replicas) and x BLS in a 67-replica configuration goes through ToProto/Marshal/Unmarshal/FromProto; hash, bytes-to-sign, participants, acted-on fields and the "
